@@ -6,6 +6,7 @@ import (
 	"context"
 	"errors"
 	"fmt"
+	"os"
 	"sort"
 	"strings"
 	"sync"
@@ -55,6 +56,55 @@ var trWedgeStep func()
 func trStep() {
 	if trWedgeStep != nil {
 		trWedgeStep()
+	}
+}
+
+// trJournal: an enumeration whose alphabet depends on the outcome of the prefix (channel, HTTP) re-runs the earlier
+// prefixes without emitting when ./check resumes it after a scenario that wedged or killed the process - and would
+// wedge on the very same prefix again, this time unguarded. So every emitted scenario is journalled ("running idx"
+// before, removed after); a resumed run (-from > 0) that finds a journal entry adds it to the skip list: such a
+// scenario is neither run again nor extended. A fresh run (-from 0) starts with empty files.
+type trJournal struct {
+	run, skipf string
+	skip       map[int]bool
+}
+
+func newTrJournal(name string) *trJournal {
+	j := &trJournal{skip: map[int]bool{}}
+	if *flagOut == "" {
+		return j
+	}
+	j.run, j.skipf = *flagOut+"."+name+"-running", *flagOut+"."+name+"-skip"
+	if *flagFrom == 0 && *flagOnly < 0 {
+		os.Remove(j.run)
+		os.Remove(j.skipf)
+	}
+	if b, err := os.ReadFile(j.run); err == nil {
+		f, _ := os.OpenFile(j.skipf, os.O_CREATE|os.O_WRONLY|os.O_APPEND, 0o644)
+		f.Write(b)
+		f.Close()
+		os.Remove(j.run)
+	}
+	if b, err := os.ReadFile(j.skipf); err == nil {
+		for _, l := range strings.Fields(string(b)) {
+			var n int
+			if _, err := fmt.Sscan(l, &n); err == nil {
+				j.skip[n] = true
+			}
+		}
+	}
+	return j
+}
+
+func (j *trJournal) begin(idx int) {
+	if j.run != "" {
+		os.WriteFile(j.run, []byte(fmt.Sprintf("%d\n", idx)), 0o644)
+	}
+}
+
+func (j *trJournal) end() {
+	if j.run != "" {
+		os.Remove(j.run)
 	}
 }
 
@@ -236,6 +286,7 @@ func TestC19Chan(t *testing.T) {
 	}
 	idx := 0
 	var next int64
+	jr := newTrJournal("chan")
 	for _, capacity := range []int{0, 1, 2} {
 		var rec func(prefix []chAct)
 		rec = func(prefix []chAct) {
@@ -250,12 +301,18 @@ func TestC19Chan(t *testing.T) {
 					nW++
 				}
 			}
+			if len(prefix) > 0 && jr.skip[idx] { // wedged or died in an earlier attempt of this run: reported then
+				idx++
+				return
+			}
 			if len(prefix) > 0 {
 				if want(idx) {
 					em.Marker("begin", idx)
+					jr.begin(idx)
 					unguard := trGuard(em, idx, "chan-lockstep", map[string]any{"cap": capacity, "acts": prefix}, []string{fmt.Sprintf("chan-cap:%d", capacity)})
 					run, w, r, bad := runChan(t, capacity, prefix)
 					unguard()
+					jr.end()
 					pw, pr = w, r
 					if run.aborted {
 						em.Marker("end", idx)
